@@ -61,7 +61,7 @@ Fixpoint count_hist (v : variant) (P : params) (fuel : nat) (d : disk) (a : alog
 (* ---- the same exploration with a failing write inside a Save ---- *)
 
 Definition faults_for (es : list entry) : list fault :=
-  FClear :: FHs :: FSnap :: flat_map (fun j => [FEntry j false; FEntry j true]) (seq 0 (length es)).
+  FClear 0 :: FClear 1 :: FClear 2 :: FHs :: FSnap :: flat_map (fun j => [FEntry j false; FEntry j true]) (seq 0 (length es)).
 
 (* boolean form of Fault.failed_log *)
 Definition failed_ok (ft : fault) (es : list entry) (h : option hardstate) (old new : alog) : bool :=
@@ -72,7 +72,7 @@ Definition failed_ok (ft : fault) (es : list entry) (h : option hardstate) (old 
       let l := a_ents old in
       let keep := firstn (N.to_nat (b - first_of l)) l in
       match ft with
-      | FClear => ents_eqb (a_ents new) (firstn (length (a_ents new)) l) && (b - first_of l <? N.of_nat (length (a_ents new)))
+      | FClear _ => ents_eqb (a_ents new) (firstn (length (a_ents new)) l) && (b - first_of l <? N.of_nat (length (a_ents new)))
                   && meta_eqb (a_meta new) (a_meta old)
       | FEntry j _ => ents_eqb (a_ents new) (keep ++ firstn j es) && meta_eqb (a_meta new) (a_meta old)
       | FHs => ents_eqb (a_ents new) (keep ++ es) && meta_eqb (a_meta new) (a_meta old)
